@@ -17,7 +17,7 @@ func (hr *HarnessRun) initMode() bool { return hr.Name == "<init>" }
 func newHarnessRun(e *Engine, name string, fn *ssa.Function, cfg Config) *HarnessRun {
 	hr := &HarnessRun{e: e, Name: name, Fn: fn, Cfg: cfg,
 		Paths: map[string]int{}, Unsupported: map[string]int{}, Witness: map[string]map[string]interface{}{},
-		SitesSeen: map[string]int{}, Cuts: map[string]int{}, FnSteps: map[*ssa.Function]int64{}}
+		SitesSeen: map[string]int{}, WitnessNotes: map[string][]string{}, Cuts: map[string]int{}, FnSteps: map[*ssa.Function]int64{}}
 	hr.cond = sync.NewCond(&hr.mu)
 	return hr
 }
